@@ -223,8 +223,8 @@ PROPS["C03"] = {
     "module": "MsiProofs.Props.C03b",
     "gen": ["limits", "column", "category"],
     "profiles": ["dev"],
-    "theorems": ["MsiProofs.C03.filterRows_spec", "MsiProofs.C03.deleteGo_rows", "MsiProofs.C03.updPlan_spec", "MsiProofs.C03.insert_adds_exactly", "MsiProofs.C03.incref_ext", "MsiProofs.C03.insert_refines", "MsiProofs.C03.insert_then_load", "MsiProofs.C03.decref_spec", "MsiProofs.C03.deleteGo_refines", "MsiProofs.C03.delete_refines", "MsiProofs.C03.delete_then_load", "MsiProofs.C03.readRows_rowOk", "MsiProofs.C03.write_read", "MsiProofs.C03.history_inv", "MsiProofs.C03.op_inv"],
-    "level_text": 'Package-wide frame condition: an insert or delete on one table leaves what every other table reads as unchanged and keeps the package invariant; along every history (history_inv). STATE-LEVEL REFINEMENT: Insert::exec and Delete::exec refine the relational insert / delete on the package state. insert_then_load: after a successful insert the new state reads the table as - in values - exactly the old rows plus the new ones (with "" stored as null), in strictly ascending key order, the pool only having been extended (live entries keep their text), no other stream touched. delete_then_load: with the pools reference counts covering the stored references (Accounted; any other cells of interest may be included), after a successful delete the new state reads exactly the stored rows on which the condition - evaluated on their original values - is false, in order; every remaining cell anywhere keeps its value and the accounting keeps holding (the hypothesis hconst of the loop-level theorem is discharged). Rows read fit their columns and are read back as written (readRows_rowOk, write_read). Update::exec at state level: not proved (loop-level specs only). Lean theorems: the row loops of select, delete and update equal filter / keep-if-not / map-if of the relational model for every table, row list and condition; insert adds exactly the given rows to a key-sorted map. Frame condition and lift over histories: correspondence + an independent in-memory relational reference (harness/src/refdb.rs) compared after every step, plus all operation sequences to depth 3 (quick) / 4 (thorough) over a small alphabet.',
+    "theorems": ["MsiProofs.C03.filterRows_spec", "MsiProofs.C03.deleteGo_rows", "MsiProofs.C03.updPlan_spec", "MsiProofs.C03.insert_adds_exactly", "MsiProofs.C03.incref_ext", "MsiProofs.C03.insert_refines", "MsiProofs.C03.insert_then_load", "MsiProofs.C03.decref_spec", "MsiProofs.C03.deleteGo_refines", "MsiProofs.C03.delete_refines", "MsiProofs.C03.delete_then_load", "MsiProofs.C03.readRows_rowOk", "MsiProofs.C03.write_read", "MsiProofs.C03.history_inv", "MsiProofs.C03.op_inv", "MsiProofs.C03.update_then_load", "MsiProofs.C03.assign_spec", "MsiProofs.C03.dml_history_inv"],
+    "level_text": 'UPDATE too: update_then_load - after a successful Update::exec the new state reads the table as a re-ordering of rows that are, as values, the old rows with the assignments ("" as null) applied to exactly the planned rows; every other cell keeps its value; same slack; no other stream touched; and every history of inserts, updates and deletes keeps the package invariant (dml_history_inv). Package-wide frame condition: an insert or delete on one table leaves what every other table reads as unchanged and keeps the package invariant; along every history (history_inv). STATE-LEVEL REFINEMENT: Insert::exec and Delete::exec refine the relational insert / delete on the package state. insert_then_load: after a successful insert the new state reads the table as - in values - exactly the old rows plus the new ones (with "" stored as null), in strictly ascending key order, the pool only having been extended (live entries keep their text), no other stream touched. delete_then_load: with the pools reference counts covering the stored references (Accounted; any other cells of interest may be included), after a successful delete the new state reads exactly the stored rows on which the condition - evaluated on their original values - is false, in order; every remaining cell anywhere keeps its value and the accounting keeps holding (the hypothesis hconst of the loop-level theorem is discharged). Rows read fit their columns and are read back as written (readRows_rowOk, write_read). Lean theorems: the row loops of select, delete and update equal filter / keep-if-not / map-if of the relational model for every table, row list and condition; insert adds exactly the given rows to a key-sorted map. Frame condition and lift over histories: correspondence + an independent in-memory relational reference (harness/src/refdb.rs) compared after every step, plus all operation sequences to depth 3 (quick) / 4 (thorough) over a small alphabet.',
     "level_note": "Trusted: Lean kernel; the hand-written package model (MsiModel/Pkg.lean, PkgApi.lean, Pool, Table, PropSet, Summary), tied to the code by byte-exact correspondence: the same request histories run on the real crate and on the model's definitions, compared on every reply including full snapshots and the raw bytes of every saved stream; cfb is modelled as a finite map from names (compared by UTF-16 length and upper-cased text) to byte strings; the 24 table-backed code pages are modelled on ASCII text only (non-ASCII text is exercised under UTF-8; all pages are exercised by the oracle on the real code).",
     "technique": 'Lean 4 proof (loops = list operations, by induction) + exhaustive small-alphabet sequences + reference database oracle',
     "rule": 'seeded random sessions: package type, database code page, 1-3 tables with random schemas (types, widths, flags, ranges, categories, enumerations, composite/nullable keys), inserts (valid with controlled invalid mutations), updates (incl. key columns), deletes, selects, stream writes/removes (0..9000 bytes), summary setters/clearers, create/drop table, rejected calls, close/reopen in all three modes at random positions, snapshot after every step, raw bytes after flush. non-trivial = distinct successful mutating requests + decoded files',
@@ -236,8 +236,8 @@ PROPS["C04"] = {
     "module": "MsiProofs.Props.C04b",
     "gen": ["limits", "column", "category", "streamname"],
     "profiles": ["dev"],
-    "theorems": ["MsiProofs.C04.createTable_rejected_noop", "MsiProofs.C04.createError_covers", "MsiProofs.C04.dropTable_rejected_noop", "MsiProofs.C04.stream_rejected_noop", "MsiProofs.C04.removeStream_missing_noop", "MsiProofs.C04.writeCols_err", "MsiProofs.C04.insert_rejected_noop", "MsiProofs.C04.delete_rejected_noop", "MsiProofs.C04.update_rejected_noop", "MsiProofs.C04.update_invalid_noop", "MsiProofs.C04.storeRows_err", "MsiProofs.C04.insert_refused_noop", "MsiProofs.C04.delete_refused_noop"],
-    "level_text": 'Under the package invariant ANY insert or delete that does not return Ok - whatever the error kind, incl. the capacity panic - leaves the state exactly as it was (no late failure exists: the rows to be written always fit their columns). Update::exec too: every rejection other than a late InvalidInput returns the state it was given (unknown table, key collision, malformed stored table), and the InvalidInput rejections of its checks precede any change. Lean theorems: a step of the model returns the state it leaves behind also on error; create_table performs every check (names, arity, key, duplicates, existence, storability, validity of all catalog rows) before its first mutation and returns the state untouched when one fails; likewise drop_table, the stream calls, and the argument rejections of Insert::exec / Delete::exec (write_rows can only fail with InvalidInput). Tie: every rejected call in the histories is followed by a snapshot compared with the previous one, and by save/reopen.',
+    "theorems": ["MsiProofs.C04.createTable_rejected_noop", "MsiProofs.C04.createError_covers", "MsiProofs.C04.dropTable_rejected_noop", "MsiProofs.C04.stream_rejected_noop", "MsiProofs.C04.removeStream_missing_noop", "MsiProofs.C04.writeCols_err", "MsiProofs.C04.insert_rejected_noop", "MsiProofs.C04.delete_rejected_noop", "MsiProofs.C04.update_rejected_noop", "MsiProofs.C04.update_invalid_noop", "MsiProofs.C04.storeRows_err", "MsiProofs.C04.insert_refused_noop", "MsiProofs.C04.delete_refused_noop", "MsiProofs.C04.update_refused_noop"],
+    "level_text": '(Update::exec included.) Under the package invariant ANY insert or delete that does not return Ok - whatever the error kind, incl. the capacity panic - leaves the state exactly as it was (no late failure exists: the rows to be written always fit their columns). Update::exec too: every rejection other than a late InvalidInput returns the state it was given (unknown table, key collision, malformed stored table), and the InvalidInput rejections of its checks precede any change. Lean theorems: a step of the model returns the state it leaves behind also on error; create_table performs every check (names, arity, key, duplicates, existence, storability, validity of all catalog rows) before its first mutation and returns the state untouched when one fails; likewise drop_table, the stream calls, and the argument rejections of Insert::exec / Delete::exec (write_rows can only fail with InvalidInput). Tie: every rejected call in the histories is followed by a snapshot compared with the previous one, and by save/reopen.',
     "level_note": "Trusted: Lean kernel; the hand-written package model (MsiModel/Pkg.lean, PkgApi.lean, Pool, Table, PropSet, Summary), tied to the code by byte-exact correspondence: the same request histories run on the real crate and on the model's definitions, compared on every reply including full snapshots and the raw bytes of every saved stream; cfb is modelled as a finite map from names (compared by UTF-16 length and upper-cased text) to byte strings; the 24 table-backed code pages are modelled on ASCII text only (non-ASCII text is exercised under UTF-8; all pages are exercised by the oracle on the real code).",
     "technique": 'Lean 4 proof (error paths return the input state) + snapshot-equality oracle on rejected calls',
     "rule": 'seeded random sessions: package type, database code page, 1-3 tables with random schemas (types, widths, flags, ranges, categories, enumerations, composite/nullable keys), inserts (valid with controlled invalid mutations), updates (incl. key columns), deletes, selects, stream writes/removes (0..9000 bytes), summary setters/clearers, create/drop table, rejected calls, close/reopen in all three modes at random positions, snapshot after every step, raw bytes after flush. non-trivial = distinct successful mutating requests + decoded files',
@@ -275,8 +275,8 @@ PROPS["C08"] = {
     "module": "MsiProofs.Props.C08b",
     "gen": ["limits", "column"],
     "profiles": ["dev"],
-    "theorems": ["MsiProofs.C08.cell_roundtrip", "MsiProofs.C08.min_is_null", "MsiProofs.C08.rows_roundtrip", "MsiProofs.C08.pool_roundtrip", "MsiProofs.C08.increfScan_total", "MsiProofs.C08.incref_accounting", "MsiProofs.C08.decrefAt_total", "MsiProofs.C08.decref_accounting", "MsiProofs.C08.incref_exact", "MsiProofs.C08.decref_spec", "MsiProofs.C08.insert_accounted", "MsiProofs.C08.delete_accounted", "MsiProofs.C08.exact_iff", "MsiProofs.C08.history_inv", "MsiProofs.C08.insert_inv", "MsiProofs.C08.delete_inv"],
-    "level_text": "WHOLE PACKAGES, WHOLE HISTORIES: the invariant Inv (every table loads; table streams pairwise distinct; reference counts = references held by the cells of ALL tables + a fixed slack; pool within its reference width) is re-established by every successful insert or delete on any table and untouched by every refused one, hence holds along every history (history_inv: induction over the request list). EXACT COUNTS AS AN INVARIANT: with AccountedWith slack p cells (references from the cells + slack = reference count, every entry), a successful Insert::exec and a successful Delete::exec leave the cells the new state reads - together with any other cells of interest, e.g. those of all other tables - accounted with the SAME slack (slack 0: counts equal the numbers of references; the empty state is exact); incref adds exactly one reference to the entry it returns, decref releases exactly one and clears text only at zero. Update::exec, create/drop table and the composition over all tables of a package: by oracle. Lean theorems: cells are offset-binary with zero = null and the reserved minimum; incref adds exactly one reference to an entry holding exactly the string and never yields a live empty entry, decref removes exactly one and clears the text at zero (unused entries are empty), dangling references change nothing. Tie: the raw streams of every saved file are decoded by an independent decoder (harness/src/decode.rs): whole rows, live references, exact reference counts over all tables incl. the catalog, no stale text, catalog = existing tables with columns numbered 1..n, rows = API rows; and compared byte-for-byte with the model's own save.",
+    "theorems": ["MsiProofs.C08.cell_roundtrip", "MsiProofs.C08.min_is_null", "MsiProofs.C08.rows_roundtrip", "MsiProofs.C08.pool_roundtrip", "MsiProofs.C08.increfScan_total", "MsiProofs.C08.incref_accounting", "MsiProofs.C08.decrefAt_total", "MsiProofs.C08.decref_accounting", "MsiProofs.C08.incref_exact", "MsiProofs.C08.decref_spec", "MsiProofs.C08.insert_accounted", "MsiProofs.C08.delete_accounted", "MsiProofs.C08.exact_iff", "MsiProofs.C08.history_inv", "MsiProofs.C08.insert_inv", "MsiProofs.C08.delete_inv", "MsiProofs.C08.update_inv", "MsiProofs.C08.dml_history_inv"],
+    "level_text": "Update::exec included: every history of inserts, updates and deletes keeps the counts exact over the whole package (dml_history_inv). WHOLE PACKAGES, WHOLE HISTORIES: the invariant Inv (every table loads; table streams pairwise distinct; reference counts = references held by the cells of ALL tables + a fixed slack; pool within its reference width) is re-established by every successful insert or delete on any table and untouched by every refused one, hence holds along every history (history_inv: induction over the request list). EXACT COUNTS AS AN INVARIANT: with AccountedWith slack p cells (references from the cells + slack = reference count, every entry), a successful Insert::exec and a successful Delete::exec leave the cells the new state reads - together with any other cells of interest, e.g. those of all other tables - accounted with the SAME slack (slack 0: counts equal the numbers of references; the empty state is exact); incref adds exactly one reference to the entry it returns, decref releases exactly one and clears text only at zero. create/drop table (catalog rows) in histories: by oracle. Lean theorems: cells are offset-binary with zero = null and the reserved minimum; incref adds exactly one reference to an entry holding exactly the string and never yields a live empty entry, decref removes exactly one and clears the text at zero (unused entries are empty), dangling references change nothing. Tie: the raw streams of every saved file are decoded by an independent decoder (harness/src/decode.rs): whole rows, live references, exact reference counts over all tables incl. the catalog, no stale text, catalog = existing tables with columns numbered 1..n, rows = API rows; and compared byte-for-byte with the model's own save.",
     "level_note": "Trusted: Lean kernel; the hand-written package model (MsiModel/Pkg.lean, PkgApi.lean, Pool, Table, PropSet, Summary), tied to the code by byte-exact correspondence: the same request histories run on the real crate and on the model's definitions, compared on every reply including full snapshots and the raw bytes of every saved stream; cfb is modelled as a finite map from names (compared by UTF-16 length and upper-cased text) to byte strings; the 24 table-backed code pages are modelled on ASCII text only (non-ASCII text is exercised under UTF-8; all pages are exercised by the oracle on the real code).",
     "technique": 'Lean 4 proof (reference-count accounting by induction) + independent format decoder on real saved bytes',
     "rule": 'seeded random sessions: package type, database code page, 1-3 tables with random schemas (types, widths, flags, ranges, categories, enumerations, composite/nullable keys), inserts (valid with controlled invalid mutations), updates (incl. key columns), deletes, selects, stream writes/removes (0..9000 bytes), summary setters/clearers, create/drop table, rejected calls, close/reopen in all three modes at random positions, snapshot after every step, raw bytes after flush. non-trivial = distinct successful mutating requests + decoded files',
